@@ -4,6 +4,7 @@ from core import Case, enc_b, enc_s, enc_header, call_impl
 from props.tr31util import VERS, rb, rs, rand_blocks, make_header, genuine, split_block, unwrap_case, wrap_case, Session, PRINTABLE, ALNUM, tr31
 
 OBLIGATIONS = ["Psec.Props.C15.loadPure_spec", "Psec.Props.C15.load_documented", "Psec.Props.C15.unwrap_errors", "Psec.Props.C15.unwrapFn_errors", "Psec.Props.C15.header_api_errors", "Psec.Props.C15.wrap_errors", "Psec.Props.C15.load_wf", "Psec.Props.C15.step_wf", "Psec.Props.C15.reachable_wf", "Psec.Tr31.loadLoop_spec"]
+PLATFORM_ASSERTIONS = True   # quick tier too: these two properties lean hardest on Py.lean's account of the built-ins
 TABLE_OBLIGATIONS = ["Psec.Tables.header_mac_len_agree", "Psec.Tables.keyblock_mac_len_agree", "Psec.Tables.header_block_size_agree", "Psec.Tables.keyblock_block_size_agree", "Psec.Tables.unwrapDispatch_by_table", "Psec.Tables.ascii_predicates"]   # model = tables regenerated from the source (harness/tables.py)
 TRUSTED_BASE = ["Lean 4.33 kernel", "which Python operations can raise and what they raise is modelled, not verified (Py.lean: encodeAscii, toBytesBE, fromHexWs, dict lookup)",
                 "correspondence harness and compiled driver"]
